@@ -86,6 +86,26 @@ def build(case: dict, n: int) -> dict | None:
             need("a"); need("b"); body.append(WRITE(INDEX(V("b"), INDEX(V("a"), I(0)))))
         elif op == "append-from-other":
             need("a"); need("b"); body.append(APPEND("a", INDEX(V("b"), I(-1))))
+        elif op == "drain-then-append":
+            # the list becomes empty (its last remaining element is removed), then grows again
+            need("a")
+            body += [REMOVE("a", INDEX(V("a"), I(0))), REMOVE("a", INDEX(V("a"), I(0))), REMOVE("a", INDEX(V("a"), I(0))), WRITE(CALL("len", V("a"))),
+                     APPEND("a", AREAD()), APPEND("a", I(6)), APPEND("a", I(7)), WRITE(INDEX(V("a"), I(0)))]
+            ain.append(4)
+        elif op == "drain-then-reassign":
+            need("a")
+            body += [REMOVE("a", INDEX(V("a"), I(-1))), REMOVE("a", INDEX(V("a"), I(-1))), REMOVE("a", INDEX(V("a"), I(-1))),
+                     ASSIGN("a", LIST(I(7), I(8), I(9))), WRITE(INDEX(V("a"), I(2)))]
+        elif op == "grow-copy-append":
+            # a list that has grown is copied into an already declared list of the same length, and the copy grows
+            need("a")
+            if "c" in have:
+                return None
+            have.add("c")
+            body += [APPEND("a", AREAD()), ASSIGN("c", LIST(I(5), I(6), I(7), I(8))), ASSIGN("c", V("a")), APPEND("c", I(9)), APPEND("c", I(10)),
+                     WRITE(INDEX(V("c"), I(-1))), WRITE(CALL("len", V("a"))),
+                     REMOVE("c", I(9)), REMOVE("c", I(10)), REMOVE("a", INDEX(V("a"), I(-1))), REMOVE("c", INDEX(V("c"), I(-1)))]
+            ain.append(4)
         elif op == "string-concat":
             need("s"); body.append(ASSIGN("s", BIN("+", V("s"), S("x"))))
         elif op == "string-len":
